@@ -49,6 +49,12 @@ def check_aead(line, toks):
                 zero_aad += int(p[1])       # that many zero bytes of AAD, fed in chunks; never materialised here
             elif p[0] in ('E', 'D'):
                 mode = p[0]
+            elif p[0] in ('ex', 'dx'):
+                # mismatched output length: must be refused, and must leave the context exactly as it was
+                t = toks[ti] if ti < len(toks) else None; ti += 1
+                if t != 'PANIC':
+                    v.append(('incremental-mismatched-buffer-accepted', 'step %s returned %s' % (s, str(t)[:40])))
+                    return v
             elif p[0] in ('e', 'em', 'd', 'dm'):
                 d = expand(p[1])
                 # absolute stream position = len(data so far)
